@@ -1,0 +1,30 @@
+//go:build verif
+
+package dastard
+
+import "sync/atomic"
+
+// Verification hooks (build tag "verif" only). verifPoint(name) marks a named synchronisation
+// point in the code; it calls the optional callback installed by the harness with
+// VerifSetPointHook and does nothing when no callback is installed. The callback runs on the
+// goroutine that reached the point (it may block there to steer a schedule or take a snapshot).
+
+type verifPointHook struct{ f func(name string) }
+
+var verifPointHookPtr atomic.Pointer[verifPointHook]
+
+// VerifSetPointHook installs f as the callback of every verifPoint (nil: remove it).
+// Safe to call from any goroutine at any time.
+func VerifSetPointHook(f func(name string)) {
+	if f == nil {
+		verifPointHookPtr.Store(nil)
+		return
+	}
+	verifPointHookPtr.Store(&verifPointHook{f: f})
+}
+
+func verifPoint(name string) {
+	if h := verifPointHookPtr.Load(); h != nil {
+		h.f(name)
+	}
+}
